@@ -601,6 +601,129 @@ LIBPROPS = {
         assumptions=["thread interleavings of the concurrent rounds are sampled, not enumerated"]),
 }
 
+# ---- coverage-guided fuzzing stage (thorough tier of C15, C17, C18, C19) -------------------------------------------
+FUZZ_TARGETS = {
+    # target: (property, processes, runs per process, max_len)
+    "agg": ("C17", 1, 400000, 400),
+    "trrel_uf": ("C18", 4, 12000, 160),
+    "uf": ("C18", 1, 300000, 240),
+    "index": ("C19", 3, 12000, 200),
+    "frontend": ("C15", 8, 1500, 400),
+}
+
+
+def fuzz_replay_cmd(target, path):
+    if target == "frontend":
+        return [os.path.join(WORK, "target-fe", "debug", "vfrontend"), "fuzz-replay", path]
+    return [build_engine_bin("libprops"), "fuzz-replay", target, path]
+
+
+def fuzz_stage(prop, seed, scale=1.0):
+    """Builds the cargo-fuzz crate (nightly, ASan) and runs this property's targets: fresh corpus seeded with deterministic
+    random files, fixed -runs and -seed. Returns (coverage dict, violations). A crash artifact is a violation; it is
+    confirmed by replaying it through the plain (non-fuzz) binary before it is reported; a libFuzzer timeout / OOM is
+    inconclusive."""
+    targets = [t for t, v in FUZZ_TARGETS.items() if v[0] == prop]
+    render_engine()
+    fdir = os.path.join(ENGINE, "fuzz")
+    render(os.path.join(fdir, "Cargo.toml.in"), os.path.join(fdir, "Cargo.toml"))
+    if not os.path.exists(os.path.join(fdir, "Cargo.lock")):
+        shutil.copy(os.path.join(ENGINE, "Cargo.lock"), os.path.join(fdir, "Cargo.lock"))
+    tdir = os.path.join(WORK, "target-fuzz")
+    pr = sh(["cargo", "+nightly", "fuzz", "build", "--fuzz-dir", "fuzz", "--target-dir", tdir], cwd=ENGINE, check=False)
+    if pr.returncode != 0:
+        sys.stderr.write(pr.stdout[-3000:])
+        raise Inconclusive("cargo fuzz build failed")
+    libprops_exe = build_engine_bin("libprops")
+    if "frontend" in targets:
+        fe_dir = os.path.join(ENGINE, "frontend")
+        sh(["cargo", "build", "-q"], cwd=fe_dir, extra_env={"CARGO_TARGET_DIR": os.path.join(WORK, "target-fe")})
+    procs = []
+    for t in targets:
+        _, nproc, runs, max_len = FUZZ_TARGETS[t]
+        runs = max(100, int(runs * scale))
+        base = os.path.join(WORK, "fz", t)
+        shutil.rmtree(base, ignore_errors=True)
+        os.makedirs(os.path.join(base, "corpus"))
+        sh([libprops_exe, "fuzz-corpus", t, os.path.join(base, "seeds"), "24", str(seed)])
+        exe = os.path.join(tdir, "x86_64-unknown-linux-gnu", "release", t)
+        for i in range(nproc):
+            art = os.path.join(base, "art%d" % i)
+            os.makedirs(art)
+            log = open(os.path.join(base, "log%d.txt" % i), "w")
+            cmd = [exe, "-runs=%d" % runs, "-seed=%d" % (seed * 1000 + i + 1), "-max_len=%d" % max_len, "-len_control=0", "-timeout=120",
+                   "-rss_limit_mb=4096", "-artifact_prefix=" + art + "/", "-print_final_stats=1",
+                   os.path.join(base, "corpus"), os.path.join(base, "seeds")]
+            procs.append((t, i, art, subprocess.Popen(cmd, stdout=log, stderr=subprocess.STDOUT, env=env()), log))
+    cov = {}
+    violations = []
+    inconclusive = []
+    for (t, i, art, p, log) in procs:
+        rc = p.wait()
+        log.close()
+        txt = open(log.name, errors="replace").read()
+        m = re.search(r"stat::number_of_executed_units: (\d+)", txt)
+        execs = int(m.group(1)) if m else 0
+        c = cov.setdefault(t, dict(executions=0, processes=0, coverage_edges=0, features=0))
+        c["executions"] += execs
+        c["processes"] += 1
+        for mm in re.finditer(r"cov: (\d+) ft: (\d+)", txt):
+            c["coverage_edges"] = max(c["coverage_edges"], int(mm.group(1)))
+            c["features"] = max(c["features"], int(mm.group(2)))
+        arts = sorted(os.listdir(art))
+        if rc != 0 or arts:
+            crash = [a for a in arts if a.startswith("crash-")]
+            other = [a for a in arts if not a.startswith("crash-")]
+            for a in crash[:3]:
+                src = os.path.join(art, a)
+                rp = subprocess.run(fuzz_replay_cmd(t, src), stdout=subprocess.PIPE, stderr=subprocess.STDOUT, text=True, env=env())
+                fail = [l for l in txt.splitlines() if l.startswith("FAILURE")]
+                if rp.returncode == 1:
+                    os.makedirs(REPLAYS, exist_ok=True)
+                    dst = os.path.join(REPLAYS, "fuzz-%s-%s" % (t, a[6:22]))
+                    shutil.copy(src, dst)
+                    violations.append(dict(property=prop, base="fuzz:" + t, signature="fuzz:%s:%s" % (t, (rp.stdout.strip().splitlines() or ["?"])[0][:160]),
+                                           failures=[dict(kind="fuzz_crash", target=t, what=rp.stdout[-1500:])], program_text=rp.stdout[-3000:], input_text="",
+                                           seed=seed, tier="thorough", fuzz_artifact=dst))
+                else:
+                    # crashed inside the fuzzer (sanitizer report, abort) but the plain binary accepts the input
+                    san = "AddressSanitizer" in txt or "ERROR: libFuzzer: deadly signal" in txt
+                    if san and not fail:
+                        os.makedirs(REPLAYS, exist_ok=True)
+                        dst = os.path.join(REPLAYS, "fuzz-%s-%s" % (t, a[6:22]))
+                        shutil.copy(src, dst)
+                        tail = txt[txt.find("ERROR"):][:1500]
+                        violations.append(dict(property=prop, base="fuzz:" + t, signature="fuzz:%s:sanitizer" % t,
+                                               failures=[dict(kind="sanitizer_report", target=t, what=tail)], program_text=tail, input_text="", seed=seed,
+                                               tier="thorough", fuzz_artifact=dst))
+                    else:
+                        inconclusive.append("%s: crash artifact %s does not reproduce outside the fuzzer" % (t, a))
+            if other or (rc != 0 and not crash):
+                inconclusive.append("%s: libFuzzer exit %d, artifacts %s (timeout / out of memory)" % (t, rc, other[:3]))
+    # how many of the coverage-distinct inputs the campaign kept are non-trivial
+    for t in targets:
+        base = os.path.join(WORK, "fz", t, "corpus")
+        cmd = ([os.path.join(WORK, "target-fe", "debug", "vfrontend"), "fuzz-stats", base] if t == "frontend" else [libprops_exe, "fuzz-stats", t, base])
+        rp = subprocess.run(cmd, stdout=subprocess.PIPE, stderr=subprocess.DEVNULL, text=True, env=env())
+        try:
+            st = json.loads(rp.stdout.strip().splitlines()[-1])
+            cov[t]["corpus_files"] = st["files"]
+            cov[t]["corpus_nontrivial"] = st["nontrivial"]
+        except Exception:
+            pass
+    if inconclusive and not violations:
+        raise Inconclusive("; ".join(inconclusive[:3]))
+    return cov, violations
+
+
+def merge_fuzz(cov, fcov):
+    cov["coverage_guided_fuzzing"] = dict(engine="cargo-fuzz 0.13 / libFuzzer, AddressSanitizer, nightly", targets=fcov,
+                                          note="fresh corpus seeded with 24 deterministic random files per target; fixed -runs and -seed per process")
+    for t, c in fcov.items():
+        cov["evaluations"] += c["executions"]
+        cov["distinct_nontrivial"] += c.get("corpus_nontrivial", 0)
+        cov.setdefault("distribution", {})["fuzz_executions:" + t] = c["executions"]
+
 
 def libprops(prop, tier, seed):
     t0 = time.time()
@@ -622,6 +745,10 @@ def libprops(prop, tier, seed):
         viol.append(dict(property=prop, base="%s-libprops" % prop, signature="%s:%s" % (prop, json.dumps(v)[:160]),
                          failures=[v], program_text=json.dumps(v, indent=1), input_text="", seed=seed, tier=tier,
                          replay_how="./check %s --tier %s --seed %d re-runs the same generated sequence" % (prop, tier, seed)))
+    if tier == "thorough" and any(v[0] == prop for v in FUZZ_TARGETS.values()) and not viol:
+        fcov, fviol = fuzz_stage(prop, seed, float(os.environ.get("VERIF_FUZZ_SCALE", "1")))
+        merge_fuzz(cov, fcov)
+        viol.extend(fviol)
     return finish(prop, tier, seed, cfg["level"], cov, cfg["assumptions"], time.time() - t0, viol, [])
 
 
@@ -783,6 +910,11 @@ def c15(tier, seed):
                      "distinct_nontrivial = distinct (operator, site class, macro kind) triples whose site is not in the first rule."),
                samples=samples, distribution=dist, rejection_stage=stages, rustc_tier_modules=len(mods),
                wellformed_compile_findings=status)
+    if tier == "thorough" and not violations:
+        fcov, fviol = fuzz_stage(prop, seed, float(os.environ.get("VERIF_FUZZ_SCALE", "1")))
+        merge_fuzz(cov, fcov)
+        evaluations = cov["evaluations"]
+        violations.extend(fviol)
     write_evidence(prop, tier, seed, "exploration", cov,
                    ["rustc diagnostics are attributed to programs by line range", "arbitrary token soup is outside the property's quantifier and is not generated"],
                    time.time() - t0, len(violations))
@@ -836,6 +968,24 @@ def main(argv):
             cov, violations, infra = merge_progfuzz(prop, tier, seed, run)
             cfg = run["cfg"]
             return finish(prop, tier, seed, cfg["level"], cov, cfg["assumptions"], time.time() - t0, violations, infra)
+        if replay and (os.path.basename(replay).startswith("fuzz-") or (replay.endswith(".json") and "fuzz_artifact" in open(replay, errors="replace").read(200000))):
+            # a saved fuzz input (or the JSON record pointing at one): replayed through the plain binary, no fuzzer needed
+            path = replay
+            if not os.path.basename(replay).startswith("fuzz-"):
+                path = json.load(open(replay))["fuzz_artifact"]
+            target = os.path.basename(path)[5:].rsplit("-", 1)[0]
+            render_engine()
+            if target == "frontend":
+                sh(["cargo", "build", "-q"], cwd=os.path.join(ENGINE, "frontend"), extra_env={"CARGO_TARGET_DIR": os.path.join(WORK, "target-fe")})
+            rp = subprocess.run(fuzz_replay_cmd(target, path), stdout=subprocess.PIPE, stderr=subprocess.STDOUT, text=True, env=env())
+            sys.stderr.write(rp.stdout[-3000:])
+            if rp.returncode == 1:
+                print("VIOLATION property=%s replay=%s" % (prop, replay))
+                return 1
+            if rp.returncode != 0:
+                raise Inconclusive("fuzz replay exited with %d" % rp.returncode)
+            print("OK replay passes: %s" % rp.stdout.strip()[-200:])
+            return 0
         if prop == "C15":
             if replay:
                 rd = json.load(open(replay))
